@@ -107,7 +107,7 @@ func genC20(seed uint64, tier string, idx int) (p *Plan) {
 			} else {
 				raw = t.CreateDefaultCommandData(consts.JT808CommandType(cmd))
 			}
-			frames = append(frames, SentFrame{ID: cmd, Serial: uint16(i + 1), Raw: raw, Valid: true, Name: phone})
+			frames = append(frames, SentFrame{ID: cmd, Serial: uint16(i + 1), Raw: raw, Valid: true, Name: HexStr(phone)})
 		}
 		g.connActor(ci, frames, g.segStyle(), 0)
 	}
@@ -130,7 +130,7 @@ func enumC20(tier string) (int, func(i int) *Plan) {
 		p.Expect.Extra["ver0"] = int64(consts.JT808Protocol2013)
 		var frames []SentFrame
 		for k := 0; k < 65536+300; k++ {
-			frames = append(frames, SentFrame{ID: 0x0002, Serial: uint16(k + 1), Raw: t.CreateDefaultCommandData(consts.T0002HeartBeat), Valid: true, Name: phone})
+			frames = append(frames, SentFrame{ID: 0x0002, Serial: uint16(k + 1), Raw: t.CreateDefaultCommandData(consts.T0002HeartBeat), Valid: true, Name: HexStr(phone)})
 		}
 		g.connActor(ci, frames, "whole", 0)
 		p.Sched = SchedOpts{Strategy: "sticky", Sticky: 80}
@@ -155,7 +155,7 @@ func checkC20(r *Result) []Violation {
 		}
 		cp := r.Plan.Conns[ci]
 		ver := consts.ProtocolVersionType(r.Plan.Expect.Extra[fmt.Sprintf("ver%d", ci)])
-		phone := frames[0].Name
+		phone := string(frames[0].Name)
 		// precondition (rides along): every generated frame is a well-formed frame of that version for that
 		// phone, with consecutive serials
 		var decoded []ref.Frame
